@@ -100,6 +100,7 @@ async fn resolve_recursive_notimeout<'a>(
         let mut candidate_hostnames = candidates.hostnames;
         #[cfg(resolved_verif)]
         simseam::order::permute(&mut candidate_hostnames);
+        preferred_family_first(context, &mut candidate_hostnames);
         let mut next_candidate_hostnames = Vec::with_capacity(candidate_hostnames.len());
         let mut resolve_candidates_locally = true;
 
@@ -142,6 +143,7 @@ async fn resolve_recursive_notimeout<'a>(
                             candidate_hostnames = delegation.hostnames;
                             #[cfg(resolved_verif)]
                             simseam::order::permute(&mut candidate_hostnames);
+                            preferred_family_first(context, &mut candidate_hostnames);
                             next_candidate_hostnames =
                                 Vec::with_capacity(candidate_hostnames.len());
                             resolve_candidates_locally = true;
@@ -454,6 +456,31 @@ fn has_local_address(context: &mut RecursiveContext<'_>, hostname: &DomainName) 
 
 /// The address of the given family which zones or cache hold for a
 /// nameserver, if any.
+/// Under prefer-v4 / prefer-v6, a nameserver is not to be contacted at an
+/// address of the other family while we hold an address of the preferred family
+/// for some nameserver of the same delegation: move the candidates we hold such
+/// an address for (in zones, cache, or the glue in hand) to the end of the list,
+/// which is where candidates are taken from, keeping the order otherwise.
+fn preferred_family_first(context: &mut RecursiveContext<'_>, hostnames: &mut Vec<DomainName>) {
+    let preferred = match context.r.protocol_mode {
+        ProtocolMode::PreferV4 => RecordType::A,
+        ProtocolMode::PreferV6 => RecordType::AAAA,
+        ProtocolMode::OnlyV4 | ProtocolMode::OnlyV6 => return,
+    };
+    let (mut held, mut others) = (Vec::new(), Vec::new());
+    for hostname in hostnames.drain(..) {
+        if local_address(context, &hostname, preferred).is_some()
+            || get_ip(context.glue(), &hostname, preferred).is_some()
+        {
+            held.push(hostname);
+        } else {
+            others.push(hostname);
+        }
+    }
+    hostnames.append(&mut others);
+    hostnames.append(&mut held);
+}
+
 fn local_address(
     context: &mut RecursiveContext<'_>,
     hostname: &DomainName,
